@@ -43,7 +43,14 @@ class ThreadProxy:
         self.thread = thread
 
     def __eq__(self, other):
-        return self.thread.ident == other.thread.ident
+        if self.thread.ident != other.thread.ident:
+            return False
+        # The ident of a finished thread may be reused by a new thread:
+        # different ``Thread`` objects are different threads.
+        if (isinstance(self.thread, threading.Thread)
+                and isinstance(other.thread, threading.Thread)):
+            return self.thread is other.thread
+        return True
 
     def __repr__(self):
         return repr(self.thread)
